@@ -85,11 +85,13 @@ open Wire in
 /-- answer of `sd`: `ok <number of accepting non-terminal states> <their least tags, ascending>` or the first
     offending state -/
 def sdReport (rows : Array Row) : String :=
-  match rows.toList.zipIdx.find? fun p => !rowOk p.1 with
-  | some p => s!"fail state {p.2}"
-  | none =>
+  if sdCheck rows then
     let nt := rows.toList.filter fun r => r.acc && !r.term
     s!"ok {nt.length} {SurfModel.Proto.showNatList (sortDedup (nt.filterMap fun r => r.tags.head?))}"
+  else
+    match rows.toList.zipIdx.find? fun p => !rowOk p.1 with
+    | some p => s!"fail state {p.2}"
+    | none => "fail"
 
 open Wire in
 /-- `sd <name> | <n> <table>` -/
@@ -99,5 +101,33 @@ def handle : List String → String
     | some rows => sdReport rows.toArray
     | none => "bad-table"
   | _ => "bad-op"
+
+end SurfModel.Stream
+
+/-! ## line protocol with an installed table
+
+`sd <name> | <n> <table>` also installs the dumped table; `stream <hex>` then runs the composed model of
+`TTYEventDecoder` (tokenizer over the installed table, tag selection, payload decoders) on a byte stream and
+prints the events (`-` if none), or `panic` / `ext`. -/
+namespace SurfModel.Stream
+open SurfModel.Payload SurfModel.Automata
+
+def showEvents : Except Stop (List Event) → String
+  | .error .panic => "panic"
+  | .error .ext => "ext"
+  | .ok [] => "-"
+  | .ok evs => " ".intercalate (evs.map showEvent)
+
+open Wire in
+def handleWith (rows : Array Row) : List String → Array Row × String
+  | _ :: "|" :: [_, table] =>
+    match (table.splitOn ";").mapM parseRow with
+    | some rs => (rs.toArray, sdReport rs.toArray)
+    | none => (rows, "bad-table")
+  | ["stream", h] =>
+    match SurfModel.Proto.unhex h with
+    | some bs => (rows, showEvents (decodeEvents (rowsAuto rows) bs))
+    | none => (rows, "bad-op")
+  | _ => (rows, "bad-op")
 
 end SurfModel.Stream
